@@ -81,10 +81,16 @@ class DerivedProfile(StoreProfile):
             return
         run.do(fx, store="F")
         F = X.ref("F")
-        o = run.do(X.seq(X.meth(F, "find", s), X.meth(F, "find", s, as_sid=False), X.meth(F, "exists", s),
+        plain = s.split("?")[0].replace(">", "*")
+        o = run.do(X.seq(X.meth(F, "find", plain),
+                         X.meth(F, "find", s), X.meth(F, "find", s, as_sid=False), X.meth(F, "exists", s),
                          X.meth(F, "find_one", s), X.meth(F, "find_one", s, as_sid=False),
-                         X.meth(F, "find", s, True), X.meth(F, "find_one", s, True)))["~seq"]
-        found, strings, exists, one, one_str, found2, one2 = o
+                         X.meth(F, "find", s, True), X.meth(F, "find_one", s, True), X.meth(F, "exists", s),
+                         X.meth(F, "find", plain)))["~seq"]
+        plain0, found, strings, exists, one, one_str, found2, one2, _ex2, plain1 = o
+        # the same instance answers a plain search identically before and after the (partially consumed) derived calls
+        run.check(answer(plain0) == answer(plain1), "C12.find_differs_after_derived_calls",
+                  {"party": party, "search": plain, "derived_on": s, "before": answer(plain0), "after": answer(plain1)})
         a = answer(found)
         b = X.items(strings)
         if a[0] == "exc":
